@@ -66,6 +66,16 @@ BrefTrees ==
           Cat(Grp(1, b), Lb(FALSE, Bref(1))), Cat(Chr(97), Lb(FALSE, Cat(Bref(1), Grp(1, b)))), Rep(Cat(Grp(1, b), Bref(1)), 0, -1, TRUE),
           Grp(1, Cat(b, Bref(1))), Rep(Alt(Grp(1, b), Bref(1)), 2, 2, TRUE)} : b \in BrefBodies}
 
+\* capture-reset family (three operator nodes, needed already in the quick tier): a group that takes part in one iteration
+\* of an enclosing quantifier and not in the next must read undefined afterwards
+ResetTrees ==
+  UNION {{Rep(Alt(Grp(1, x), y), q[1], q[2], q[3]), Rep(Alt(y, Grp(1, x)), q[1], q[2], q[3]), Rep(Cat(Rep(Grp(1, x), 0, 1, TRUE), y), q[1], q[2], q[3])}
+         : x \in AtomsReduced, y \in AtomsReduced,
+           q \in {<<0, -1, TRUE>>, <<1, -1, TRUE>>, <<0, -1, FALSE>>, <<1, -1, FALSE>>, <<2, 2, TRUE>>, <<1, 2, TRUE>>, <<2, -1, TRUE>>, <<0, 2, FALSE>>}}
+\* families given as explicit tree sets: [name, trees, flag sets]
+SpecialFamilies == <<[name |-> "bref", trees |-> BrefTrees, fls |-> {NoFlags, Flags(TRUE, FALSE, FALSE)}],
+                     [name |-> "reset3", trees |-> ResetTrees, fls |-> {NoFlags}]>>
+
 \* flag sets worth trying on a tree: a flag is added only where a node it acts on occurs
 HasLetters(a) == Kinds(a) \cap {"chr", "cls", "bref"} # {}
 FlagSetsOf(a) == {NoFlags} \cup (IF HasLetters(a) THEN {Flags(TRUE, FALSE, FALSE)} ELSE {})
@@ -94,13 +104,13 @@ PickFamily == /\ ph = "start"
               /\ \/ \E k \in 1..Len(Families) : \E top \in 0..18 :
                       /\ TreesTop(Families[k].n, Families[k].atoms, Families[k].us, top) # {}
                       /\ ph' = "fam" /\ cur' = [k |-> k, top |-> top] /\ UNCHANGED rec_i
-                 \/ ph' = "fam" /\ cur' = [k |-> 0, top |-> 0] /\ UNCHANGED rec_i                 \* backreference family
+                 \/ \E j \in 1..Len(SpecialFamilies) : ph' = "fam" /\ cur' = [k |-> 0, top |-> j] /\ UNCHANGED rec_i    \* explicit tree sets
                  \/ \E nm \in UsedSubjectSets : ph' = "subs" /\ cur' = [kind |-> "subs", name |-> nm, list |-> SubjectsOf(nm)] /\ UNCHANGED rec_i
 EmitPattern == /\ ph = "fam"
                /\ IF cur.k = 0
-                  THEN \E t \in BrefTrees : \E f \in {NoFlags, Flags(TRUE, FALSE, FALSE)} :
+                  THEN \E t \in SpecialFamilies[cur.top].trees : \E f \in SpecialFamilies[cur.top].fls :
                          /\ ph' = "pat" /\ UNCHANGED rec_i
-                         /\ cur' = [kind |-> "pat", fam |-> "bref", ast |-> t, src |-> Render(t), fl |-> f, subs |-> BrefSubs]
+                         /\ cur' = [kind |-> "pat", fam |-> SpecialFamilies[cur.top].name, ast |-> t, src |-> Render(t), fl |-> f, subs |-> BrefSubs]
                   ELSE LET F == Families[cur.k] IN
                        \E t0 \in TreesTop(F.n, F.atoms, F.us, cur.top) :
                          LET t == Renumber(t0) IN
@@ -130,7 +140,7 @@ AllLazy(a, g) == IF a.t = "rep" THEN [a EXCEPT !.g = g, !.x = <<AllLazy(a.x[1], 
 SeqSet(q) == {q[k] : k \in 1..Len(q)}
 \* small families are checked on more subjects than the big ones
 LawSubjects(fam, f) == IF fam \in {"mix0", "mix1"} THEN SubjectsOf("mix2")
-                       ELSE IF fam \in {"full0", "full1", "bref"} THEN SubjectsOf("abc3") ELSE SubjectsOf("abc2")
+                       ELSE IF fam \in {"full0", "full1", "bref", "reset3"} THEN SubjectsOf("abc3") ELSE SubjectsOf("abc2")
 SyntaxLaw(a) ==
   LET src == Render(a)  p == Parse(src) IN
   /\ WellNumbered(a)
@@ -164,7 +174,7 @@ FlagsOf(r) == Flags(r.fl.i, r.fl.m, r.fl.s)
 Explain(a, f, s, act) ==
   IF act.k = "err"
   THEN (IF act.ty = "RegExpError" /\ Fwd(a, 0).bad THEN "Dev_ForwardRef"
-        ELSE IF act.ty = "RegexStackOverflow" /\ SpinBad(a) THEN "Dev_SubmatcherOverflow" ELSE "")
+        ELSE IF act.ty = "RegexStackOverflow" /\ SpinBad(a, f) THEN "Dev_SubmatcherOverflow" ELSE "")
   ELSE
   LET ds == Applicable(a, f)
       hit == {d \in SUBSET ds : d # {} /\ SameObs(act, ObsOf(s, Search(a, s, f, 0, d)))}
